@@ -152,6 +152,15 @@ fn utils_test(rng: &mut StdRng) {
     chk!("utils", format!("word {:#x}", w2), format!("select_in_word_u128(w, {})", k2), select_in_word_u128(w2, k2), exp);
     let v: u64 = rng.gen::<u64>() >> rng.gen_range(0..64);
     chk!("utils", format!("{}", v), "msb".to_string(), msb(v), if v == 0 { 0 } else { 63 - v.leading_zeros() });
+    // text_remap: symbols renamed to 0..d in increasing order of their value; returns d
+    let txt: Vec<u8> = { let n = rng.gen_range(0..40); let m = rng.gen_range(1..=255u8); (0..n).map(|_| rng.gen_range(0..=m)).collect() };
+    let (exp_txt, exp_d) = { let mut u: Vec<u8> = txt.clone(); u.sort(); u.dedup(); (txt.iter().map(|c| u.binary_search(c).unwrap() as u8).collect::<Vec<u8>>(), u.len()) };
+    chk!("utils", format!("{:?}", txt), "text_remap".to_string(), { let mut t = txt.clone(); let d = text_remap(&mut t); (t, d) }, (exp_txt, exp_d));
+    // msb over every width
+    let v128: u128 = rng.gen::<u128>() >> rng.gen_range(0..128);
+    chk!("utils", format!("{}", v128), "msb::<u128>".to_string(), msb(v128), if v128 == 0 { 0 } else { 127 - v128.leading_zeros() });
+    let v8: u8 = rng.gen::<u8>() >> rng.gen_range(0..8);
+    chk!("utils", format!("{}", v8), "msb::<u8>".to_string(), msb(v8), if v8 == 0 { 0 } else { 7 - v8.leading_zeros() });
     let d: Vec<u64> = (0..rng.gen_range(0..10)).map(|_| rng.gen()).collect();
     chk!("utils", format!("{:?}", d), "popcnt_wide::<4>".to_string(), popcnt_wide::<4>(&d), d.iter().take(4).map(|x| x.count_ones() as usize).sum::<usize>());
 }
